@@ -235,8 +235,15 @@ def run_c07(tier):
     pop = []
     for i in range(n):
         rng = common.rng_for(seed, "C07", i)
-        hh = gen.HistoryGen(rng, c07_profile(rng)).gen()
-        if i % 2 == 0:
+        prof = c07_profile(rng)
+        big = i % 12 == 5
+        if big:
+            prof.n_rows = (150, 260)       # inputs well beyond one 8 KiB read buffer, with multi-byte text on every row
+        hh = gen.HistoryGen(rng, prof).gen()
+        if big:
+            for r in hh["rows"]:
+                r["memo"] = rng.choice(["dépôt nº %d" % rng.randint(1, 99), "日本株 ✓", "Renée — réinvesti", "ünï cödé", "€ £ ¥", "naïve café"])
+        elif i % 2 == 0:
             for r in hh["rows"]:
                 r["memo"] = rng.choice(MEMOS)
         pop.append((common.case_id(seed, "C07", i), "base #%d" % i, hh))
